@@ -7,6 +7,7 @@ import (
 	"encoding/json"
 	"fmt"
 	"hash/fnv"
+	"sort"
 
 	"rendsim/kernel"
 	"rendsim/stack"
@@ -121,3 +122,5 @@ func traceHash(t []kernel.Choice) uint64 {
 	}
 	return h.Sum64()
 }
+
+func sortStrings(s []string) { sort.Strings(s) }
